@@ -805,3 +805,27 @@ class C33(Spec):
 
     def nontrivial(self, case, res):
         return res.bytes > 0
+
+
+from .families import statfam  # noqa: E402
+
+
+@_register
+class C34(Spec):
+    check_id = 'C34'
+    family = 'stat'
+    title = "secure statistics agree with Python's statistics module"
+    quick = {'runs': 2000, 'wall': 85}
+    thorough = {'runs': 200000, 'wall': 900}
+    per_run_timeout = 300
+
+    def make_case(self, seed, tier):
+        rng = random.Random(f'C34/{seed}')
+        cfg = sample_cfg(rng, tier, m_max=3 if tier == 'quick' else 5)
+        prog = statfam.gen(rng, cfg, tier, kf=(seed % 20 == 7))
+        return {'family': 'stat', 'cfg': cfg.to_json(), 'prog': prog, 'seed': seed, 'opts': {'step_cap': 3000000}}
+
+    def sample(self, case, res):
+        p = case['prog']
+        return {'seed': case['seed'], 'cfg': case['cfg'], 'fn': p['fn'], 'x': p['x'], 'y': p['y'], 'args': p['args'],
+                'type': p['type'], 'results': repr(res.results)[:200]}
